@@ -15,6 +15,7 @@
 Sanitizer reports of the harness become rejected events (observed, not decided by the spec)."""
 import json
 import os
+import time
 import re
 import threading
 
@@ -25,11 +26,25 @@ JUDGE = "BitfieldJudge"
 JUDGE_CFG = "BitfieldJudge.cfg"
 SIZES = (1, 3, 8, 9, 17)
 WORDS = (8, 16, 32, 64)
-KIND_ORDER = {"single": 0, "elem": 1, "rel": 2, "build": 3, "pair": 4, "tree": 5, "hist": 6}
+KIND_ORDER = {"single": 0, "elem": 1, "proxy": 1, "proxyx": 1, "out": 1, "rel": 2, "build": 3, "bits": 3, "pair": 4, "tree": 5, "hist": 6, "histp": 6}
 
 
 def build():
     return vlib.build_harness("c10_bitfield", ["c10_bitfield.cpp"] + ["c10_bitfield_n%d.cpp" % n for n in SIZES], libs=())
+
+
+def retry_killed(fn, *a, **kw):
+    """TLC processes are occasionally killed by the kernel's OOM killer when many checks share the
+    box (rc=-9): that says nothing about the model, so the run is repeated (at most three times)."""
+    for attempt in range(3):
+        try:
+            return fn(*a, **kw)
+        except vlib.Infra as e:
+            if "rc=-9" not in str(e) or attempt == 2:
+                raise
+            vlib.log("TLC was killed (rc=-9); retrying after a pause")
+            time.sleep(20 * (attempt + 1))
+
 
 
 def mc_env(n, w, bug="none", full=False):
@@ -42,7 +57,7 @@ def mc_env(n, w, bug="none", full=False):
 def model_check(ctx, thorough):
     """The specification itself.  Failures raise Infra (exit 2), never a VIOLATION."""
     def mc(n, w, full, **kw):
-        r = vlib.tlc_mc(ctx, "MC_BitfieldImpl", "MC_BitfieldImpl.cfg", env=mc_env(n, w, "none", full), xmx="3g", **kw)
+        r = retry_killed(vlib.tlc_mc, ctx, "MC_BitfieldImpl", "MC_BitfieldImpl.cfg", env=mc_env(n, w, "none", full), xmx="3g", **kw)
         ctx.mc_runs[-1]["constants"] = {"N": n, "W": w, "Bug": "none", "FullOps": full}
         return r
     # every operation record (aliases included) on the small enums, all word widths
@@ -57,7 +72,7 @@ def model_check(ctx, thorough):
     # 17 enumerators: 2^34 pairs - random walks from (null, null)
     # (simulate=k generates k behaviours per worker; the algebraic Laws are left to the exhaustive runs)
     for n, w in ([(17, w) for w in WORDS] if thorough else [(9, 16), (17, 8), (17, 16)]):
-        r = vlib.tlc_mc(ctx, "MC_BitfieldImpl", "MC_BitfieldImpl_sim.cfg", env=mc_env(n, w, "none", False), workers=4,
+        r = retry_killed(vlib.tlc_mc, ctx, "MC_BitfieldImpl", "MC_BitfieldImpl_sim.cfg", env=mc_env(n, w, "none", False), workers=4,
                         simulate=(2000 if thorough else 100), depth=40, seed=ctx.seed, timeout=2400)
         ctx.mc_runs[-1]["constants"] = {"N": n, "W": w, "Bug": "none", "FullOps": False}
     # vacuity guards: each invariant CAN fail - with one defect re-introduced into the transcription
@@ -73,9 +88,13 @@ def model_check(ctx, thorough):
         (9, 8, "offset_div", "Refines"),
         (3, 8, "offset_div", "ObserversAgree"),
         (3, 8, "subset_right", "ObserversAgree"),
+        (3, 8, "proxy_rebind", "Refines"),
+        (9, 8, "proxy_rebind", "Refines"),
+        (3, 8, "not_padding", "UnderlyingAgrees"),
+        (9, 16, "not_padding", "UnderlyingAgrees"),
     ]
     for n, w, bug, inv in guards:
-        r = vlib.tlc("MC_BitfieldImpl", "MC_BitfieldImpl_guard_%s.cfg" % inv, workers=4, env=mc_env(n, w, bug, n <= 3), timeout=900, expect=inv)
+        r = retry_killed(vlib.tlc, "MC_BitfieldImpl", "MC_BitfieldImpl_guard_%s.cfg" % inv, workers=4, env=mc_env(n, w, bug, n <= 3 or bug == "proxy_rebind"), timeout=900, expect=inv)
         if inv not in r.invariant_violated:
             raise vlib.Infra("vacuity guard: Bug=%s N=%d W=%d did not violate %s" % (bug, n, w, inv))
         ctx.extra.setdefault("vacuity_guards", []).append(
@@ -83,7 +102,7 @@ def model_check(ctx, thorough):
     # and the converse sanity law (thorough): when the enumerators fill the words exactly there is no
     # padding and the old operator~ is indistinguishable from the repaired one
     if thorough:
-        r = vlib.tlc("MC_BitfieldImpl", "MC_BitfieldImpl.cfg", workers=8, env=mc_env(8, 8, "not_padding", False), timeout=2400)
+        r = retry_killed(vlib.tlc, "MC_BitfieldImpl", "MC_BitfieldImpl.cfg", workers=8, env=mc_env(8, 8, "not_padding", False), timeout=2400)
         if not r.completed:
             raise vlib.Infra("Bug=not_padding must be unobservable for 8 enumerators in 8-bit words")
         ctx.extra["vacuity_guards"].append({"constants": {"N": 8, "W": 8, "Bug": "not_padding"}, "violates": None, "states": r.distinct})
@@ -92,15 +111,15 @@ def model_check(ctx, thorough):
 
 
 def emit_scripts(ctx):
-    r = vlib.tlc_mc(ctx, "MC_BitfieldImpl", "MC_BitfieldScripts.cfg", workers=4, env=mc_env(3, 8, "none", True))
+    r = retry_killed(vlib.tlc_mc, ctx, "MC_BitfieldImpl", "MC_BitfieldScripts.cfg", workers=4, env=mc_env(3, 8, "none", True))
     ctx.mc_runs[-1]["constants"] = {"N": 3, "W": 8, "Bug": "none", "FullOps": True}
     scripts = vlib._verdict_lines(r.out).get("SCRIPT", [])
     scripts = [s for s in scripts if s]
-    if len(scripts) < 1500:
+    if len(scripts) < 4000:
         raise vlib.Infra("script emission produced only %d scripts" % len(scripts))
     last = set(s[-1]["op"] for s in scripts)
     want = {"set", "idx", "ore", "orae", "or", "and", "xor", "ora", "anda", "xora", "not", "swap", "copy", "null",
-            "selfora", "selfanda", "selfxora"}
+            "selfora", "selfanda", "selfxora", "idxcopy", "idxcopy_y", "chain"}
     if last != want:
         raise vlib.Infra("script emission does not cover every operation: missing %s" % sorted(want - last))
     ctx.extra["script_op_coverage"] = sorted(last)
@@ -108,6 +127,25 @@ def emit_scripts(ctx):
 
 
 # ------------------------------------------------------------------ judging
+
+
+def in_scope_kinds():
+    """The per-record-kind scope flag lives in the judge (InScope of spec/BitfieldJudge.tla): only
+    rejected records of these kinds may become a VIOLATION; the others are observations."""
+    txt = open(os.path.join(vlib.SPEC, JUDGE + ".tla")).read()
+    m = re.search(r"^InScope == \{([^}]*)\}", txt, re.M)
+    if not m:
+        raise vlib.Infra("InScope not found in %s.tla" % JUDGE)
+    return set(re.findall(r'"(\w+)"', m.group(1)))
+
+
+def observe(ctx, sig, what):
+    """A disagreement outside the statement of C10: counted and written to the evidence, never a VIOLATION."""
+    o = ctx.extra.setdefault("observations", {})
+    e = o.setdefault(sig, {"count": 0, "first": what})
+    e["count"] += 1
+    if e["count"] == 1:
+        vlib.log("OBSERVATION (outside the statement of C10, not a verdict): %s: %s" % (sig, what[:400]))
 
 
 def signature(reason):
@@ -128,8 +166,31 @@ def harness_failure(ctx, what, rc, out, tail, payload):
         kind, f, what, san.group(1) if san else out[-300:], (tail or "")[:300]), payload)
 
 
+def kind_of(text):
+    m = re.match(r'\{"f":"(\w+)"', text)
+    return m.group(1) if m else "?"
+
+
 def judge_lines(ctx, lines, origin):
-    """lines: list of (text, payload-args).  Judges them in batches; rejects what the spec cannot explain."""
+    """lines: list of (text, payload-args).  The judge keeps only the first 300 rejected records of a
+    chunk verbatim, so record kinds are judged in separate groups: the kinds inside the statement of
+    C10 together, every observed-only kind on its own - a flood of rejections in one group (e.g. the
+    known proxy observations) can then never hide a rejection in another."""
+    scope = in_scope_kinds()
+    groups = {}
+    for k, item in enumerate(lines):
+        kd = kind_of(item[0])
+        groups.setdefault("inscope" if kd in scope else kd, []).append(k)
+    rejected = set()
+    for g in sorted(groups):
+        idx = groups[g]
+        sub = [lines[k] for k in idx]
+        for r in judge_group(ctx, sub, "%s_%s" % (origin, g), scope):
+            rejected.add(idx[r])
+    return rejected
+
+
+def judge_group(ctx, lines, origin, scope):
     batch = 400000
     rejected = set()
     for start in range(0, len(lines), batch):
@@ -139,7 +200,8 @@ def judge_lines(ctx, lines, origin):
             for text, _ in part:
                 f.write(text)
                 f.write("\n")
-        bad = vlib.judge_trace(ctx, JUDGE, JUDGE_CFG, path, boundary_key=None, timeout=2400)
+        bad = retry_killed(vlib.judge_trace, ctx, JUDGE, JUDGE_CFG, path, boundary_key=None, timeout=2400,
+                           nchunks=max(1, min(vlib.NCPU, len(part) // 2000)))
         ctx.evaluations += len(part)
         ctx.extra["record_chunks"] = ctx.extra.get("record_chunks", 0) + min(vlib.NCPU, len(part))
         recs = []
@@ -154,6 +216,9 @@ def judge_lines(ctx, lines, origin):
         for _, _, b, text, args in recs:
             rec = json.loads(text)
             for why in sorted(b["why"]):
+                if b["op"] not in scope:
+                    observe(ctx, signature(why), "%s record (n=%d, w=%d): %s; record: %s" % (b["op"], rec["n"], rec["w"], why, text[:500]))
+                    continue
                 ctx.reject(signature(why), "%s record (n=%d, w=%d, %s): the specification cannot explain %s; record: %s" % (
                     b["op"], rec["n"], rec["w"], origin, why, text[:600]), {"args": args, "record": rec, "reason": why})
         os.unlink(path)
@@ -173,9 +238,9 @@ def binding_guard(ctx, lines, rejected):
         if k in rejected:
             continue
         m = re.match(r'\{"f":"(\w+)"', text)
-        if m and m.group(1) not in first and (m.group(1) != "hist" or '"ops":[]' not in text):
+        if m and m.group(1) not in first and (not m.group(1).startswith("hist") or '"ops":[]' not in text):
             first[m.group(1)] = json.loads(text)
-        if len(first) == 7:
+        if len(first) == 12:
             break
     out, want = [], set()
 
@@ -198,15 +263,23 @@ def binding_guard(ctx, lines, rejected):
             c["r"][0] = toggle0(c["r"][0])
         elif f == "tree":
             c["q"][2][4] = 1 - c["q"][2][4]
-        elif f == "hist":
+        elif f in ("hist", "histp"):
             c["obs"][-1]["x"] = toggle0(c["obs"][-1]["x"])
+        elif f == "proxy":
+            c["ch1"][0] = toggle0(c["ch1"][0])
+        elif f == "proxyx":
+            c["rid"][0] = 0
+        elif f == "out":
+            c["s"] = c["s"][:-1] + [44, 125]
+        elif f == "bits":
+            c["s0"][-1] = toggle0(c["s0"][-1])
         add(c, True)
     if len(want) < 5:
         raise vlib.Infra("binding guard: only %d corrupted records could be formed" % len(want))
     path = os.path.join(ctx.workdir, "judge_corrupted.ndjson")
     with open(path, "w") as fh:
         fh.write("\n".join(out) + "\n")
-    bad = vlib.judge_trace(ctx, JUDGE, JUDGE_CFG, path, nchunks=1, boundary_key=None, timeout=900)
+    bad = retry_killed(vlib.judge_trace, ctx, JUDGE, JUDGE_CFG, path, nchunks=1, boundary_key=None, timeout=900)
     os.unlink(path)
     why = {b["l"]: set(b["why"]) for b in bad}
     # out = untouched copy, corrupted copy, untouched, corrupted, ...: every corrupted copy must be
@@ -234,9 +307,17 @@ def count_classes(ctx, lines, cap=150000):
             key += (r["p"], r["e"], r["g"])
         elif f == "build":
             key += (r["how"], len(r["s"]))
+        elif f == "proxy":
+            key += (r["p"], r["i"] == r["j"], r["i"] in r["a"], r["j"] in r["a"], r["j"] in r["b"])
+        elif f == "proxyx":
+            key += (r["p"], r["i"] in r["a"], r["j"] in r["a"])
+        elif f == "out":
+            key += (r["p"], min(len(r["a"]), 4), bool(r["uv"]))
+        elif f == "bits":
+            key += (min(len(r["a"]), 6),)
         elif f == "tree":
             key += (r["t"]["o"], r["u"]["o"], set(r["r"][0]) == set(r["q"][0]))
-        elif f == "hist":
+        elif f in ("hist", "histp"):
             for o in r["ops"]:
                 ctx.count_class(("hist-op", r["n"], r["w"], o["op"]))
             key += (r["src"], min(len(r["ops"]), 8))
@@ -245,24 +326,35 @@ def count_classes(ctx, lines, cap=150000):
 
 
 def record_plan(ctx, thorough):
-    """(n, w, pairs_mode, ntrees, nhist) per instantiation."""
+    """(n, w, pairs_mode, ntrees, nhist, bits_stride, lastword_stride) per instantiation.
+    bits_stride k: all single-enumerator operations of every k-th subset; lastword_stride k (multi-word
+    bitfields): all pairs of subsets differing only in the last storage word, every k-th choice of the
+    other words.  Thorough makes both exhaustive for the multi-word instantiations of 17 enumerators."""
     plan = []
     for n in SIZES:
         for w in WORDS:
+            multi = n > w
             if n <= 3:
                 pairs = "all"
             elif n <= 9:
                 pairs = "all" if (thorough or (n, w) in ((8, 8), (9, 8))) else "4000"
             else:
                 pairs = "100000" if thorough else "4000"
-            plan.append((n, w, pairs, 6000 if thorough else 600, 1200 if thorough else 150))
+            if n <= 9:
+                bits, lastword = 1, 0      # (all pairs already cover the last word there)
+            elif thorough:
+                bits, lastword = (1 if multi else 16), 1
+            else:
+                bits, lastword = 257, 1024
+            plan.append((n, w, pairs, 6000 if thorough else 600, 1200 if thorough else 150, bits, lastword))
     return plan
 
 
 def run_record(binary, ctx, item, tag="rec"):
-    n, w, pairs, ntrees, nhist = item
+    n, w, pairs, ntrees, nhist, bits, lastword = item
     path = os.path.join(ctx.workdir, "%s_%d_%d.ndjson" % (tag, n, w))
-    rc, out = vlib.run_harness(binary, ["record", path, n, w, ctx.seed, pairs, ntrees, nhist], timeout=2400)
+    rc, out = vlib.run_harness(binary, ["record", path, n, w, ctx.seed, pairs, ntrees, nhist, bits, lastword,
+                                        1 if ctx.tier == "thorough" else 0], timeout=2400)
     return item, path, rc, out
 
 
@@ -307,9 +399,10 @@ def run(ctx):
         plan = record_plan(ctx, thorough)
         results = vlib.parallel(lambda it: run_record(binary, ctx, it), plan, workers=8)
         for item, path, rc, out in results:
-            n, w, pairs, ntrees, nhist = item
+            n, w, pairs, ntrees, nhist, bits, lastword = item
             got = collect(ctx, path, rc, out, "record n=%d w=%d" % (n, w),
-                          {"mode": "record", "n": n, "w": w, "pairs": pairs, "ntrees": ntrees, "nhist": nhist, "seed": ctx.seed})
+                          {"mode": "record", "n": n, "w": w, "pairs": pairs, "ntrees": ntrees, "nhist": nhist,
+                           "bits": bits, "lastword": lastword, "deep": 1 if thorough else 0, "seed": ctx.seed})
             ctx.traces_validated += nhist
             lines += got
             if len(lines) >= 1200000:
@@ -317,7 +410,7 @@ def run(ctx):
                 judge_lines(ctx, lines, "recorded")
                 lines = []
         if lines:
-            for kind in ("pair", "tree", "hist"):
+            for kind in ("pair", "tree", "hist", "proxy", "out"):
                 for text, _ in lines:
                     if text.startswith('{"f":"%s","n":9,"w":8' % kind) and 300 < len(text) < 1500:
                         ctx.sample({"recorded": json.loads(text)})
@@ -329,7 +422,8 @@ def run(ctx):
         th.join()
     if mc_err:
         raise mc_err[0]
-    ctx.extra["record_plan"] = [{"n": n, "w": w, "pairs": p, "trees": t, "histories": h} for n, w, p, t, h in plan]
+    ctx.extra["record_plan"] = [{"n": n, "w": w, "pairs": p, "trees": t, "histories": h, "bits_stride": b, "lastword_stride": lw}
+                                for n, w, p, t, h, b, lw in plan]
     ctx.exhaustive = False
     ctx.rule = ("records of the real operators judged by TLC: for each (enum size, word width) every subset (<= 9 enumerators; "
                 "a sample of 228 for 17) produced in six ways (set, init, ~complement, ~~, xor with ~null, or with ~all) x every "
@@ -362,7 +456,8 @@ def replay(ctx, payload):
         lines = collect(ctx, rpath, rc, out, "replay of a script", args)
     else:
         rpath = os.path.join(ctx.workdir, "replay_out.ndjson")
-        rc, out = vlib.run_harness(binary, ["record", rpath, n, w, args["seed"], args["pairs"], args["ntrees"], args["nhist"]], timeout=2400)
+        rc, out = vlib.run_harness(binary, ["record", rpath, n, w, args["seed"], args["pairs"], args["ntrees"], args["nhist"],
+                                            args.get("bits", 0), args.get("lastword", 0), args.get("deep", 0)], timeout=2400)
         lines = collect(ctx, rpath, rc, out, "replay of the recording n=%d w=%d" % (n, w), args)
     ctx.traces_validated += 1
     count_classes(ctx, lines)
